@@ -31,6 +31,37 @@ CLAIMED = {
         note="trusted: interpreter, int()/float() models (shared by implementation and "
              "reference), the reference transcription in verifspec/serial_api.py; version "
              "payloads only on the listed grid (AwesomeVersion not encodable)"),
+    "C06": dict(
+        text="symbolic execution of the id allocator (handle_id_request/add_sensor/_get_next_id) "
+             "from arbitrary constellations of known node ids (solver variables in 0..255) and of "
+             "an id request / stop / restart / id request cycle on the abstract file system",
+        note="trusted: interpreter, abstract FS + serialiser (symex/fsenv.py); at most 2 (quick) "
+             "/ 3 known nodes; nodes are never removed (no API does)"),
+    "C12": dict(
+        text="bounded symbolic model checking of the real save_sensors/_perform_file_action/"
+             "safe_load_sensors on an abstract file system: crash point, failing operation, prior "
+             "on-disk configuration, loss of unsynced data and format are choice variables "
+             "explored exhaustively; state contents are solver terms",
+        note="assumes POSIX rename atomicity and operation-ordered directory entries; serialiser "
+             "writes in two chunks; decoder raises per the tabulated contract; one fault per save"),
+    "C13": dict(
+        text="symbolic execution of the real safe_load_sensors/_load_sensors with main and backup "
+             "independently missing/good/empty/truncated/zero-filled and the decoder raising a "
+             "symbolic member of the natively tabulated json/pickle exception contract",
+        note="decoder contract tabulated on all truncations and zero-fills of three real saved "
+             "states per format (not proved complete); byte-level decoding is C code, not encoded"),
+    "C14": dict(
+        text="inductive step for the invariant 'need_save or file == projection' over every "
+             "accepted message kind from arbitrary pre-states, plus stop()/save tick as steps on "
+             "the abstract file system (threaded and asyncio); induction covers every history",
+        note="abstract serialiser (file content = persisted projection at dump time); pre-states "
+             "in Inv on the listed shapes; save racing with a message is C15's subject"),
+    "C15": dict(
+        text="symbolic execution of the real schedule_save closures (threading.Timer chain and "
+             "asyncio save loop) over three ticks with a transient fault at a symbolic tick and "
+             "file operation, or a serialiser failure, on the abstract file system",
+        note="Timer / event loop are recording fakes (synchronous await model); concurrent "
+             "mutation is modelled as RuntimeError from the serialiser; three ticks"),
 }
 
 NOT_YET = "check not landed yet (build in progress); will be decided by the same solver-based engine"
